@@ -140,11 +140,12 @@ class BufferedReader(io.RawIOBase):
             return self.readall()
         if self.size is not None:
             n = min(n, self.size - self.pos)
-            if n <= 0:
-                return r''
-        b = self.peek(n)
-        self.pos += n
-        return b[:n]
+        if n <= 0:
+            return b''
+        b = self.peek(n)[:n]
+        # when the size is not yet known, fewer than n bytes may be available
+        self.pos += len(b)
+        return b
 
     def readall(self):
         # read to the end of the window (offset, size), not to the end
